@@ -21,7 +21,7 @@ fn lit_int(l: &syn::LitInt) -> R<(String, Option<IntTy>)> {
     Ok((l.base10_digits().to_string(), ty))
 }
 
-fn strip_ref(e: &syn::Expr) -> &syn::Expr {
+pub fn strip_ref(e: &syn::Expr) -> &syn::Expr {
     match e {
         syn::Expr::Reference(r) => strip_ref(&r.expr),
         syn::Expr::Paren(p) => strip_ref(&p.expr),
@@ -80,7 +80,7 @@ pub fn int_assoc_const(path: &str) -> Option<(String, IntTy)> {
     }
 }
 
-fn path_str(p: &syn::Path) -> String {
+pub fn path_str(p: &syn::Path) -> String {
     p.segments.iter().map(|s| s.ident.to_string()).collect::<Vec<_>>().join("::")
 }
 
@@ -95,6 +95,7 @@ impl<'a> Cx<'a> {
             E::Lit(l) => match &l.lit {
                 syn::Lit::Int(i) => lit_int(i).ok().and_then(|x| x.1).map(Ty::Int),
                 syn::Lit::Bool(_) => Some(Ty::Bool),
+                syn::Lit::Byte(_) => Some(Ty::Int(IntTy::U8)),
                 _ => None,
             },
             E::Paren(p) => self.ty_of(&p.expr),
@@ -104,7 +105,8 @@ impl<'a> Cx<'a> {
                 if let Some(id) = p.path.get_ident() {
                     let n = id.to_string();
                     if let Some((_, v)) = self.lookup(&n) {
-                        return Some(v.ty.clone());
+                        // a literal-initialised variable takes its type from its first typed use
+                        return if v.flex { None } else { Some(v.ty.clone()) };
                     }
                     if let Some(c) = self.g.consts.get(&n) {
                         return Some(c.ty.clone());
@@ -120,12 +122,20 @@ impl<'a> Cx<'a> {
                         return Some(Ty::Int(t));
                     }
                 }
+                if s.contains("Ordering::") {
+                    return Some(Ty::Ordering);
+                }
                 None
             }
             E::Field(f) => {
                 let bt = self.ty_of(&f.base)?;
                 match &f.member {
                     syn::Member::Named(id) => {
+                        match (&bt, id.to_string().as_str()) {
+                            (Ty::Big, "data") => return Some(Ty::Vec),
+                            (Ty::RView, "inner") => return Some(Ty::Slice),
+                            _ => {}
+                        }
                         self.field_of(f.span(), &bt, &id.to_string()).ok().map(|x| x.1)
                     }
                     syn::Member::Unnamed(ix) => match bt {
@@ -160,10 +170,23 @@ impl<'a> Cx<'a> {
                     "overflowing_mul" | "overflowing_add" => rt.map(|t| Ty::Tuple(vec![t, Ty::Bool])),
                     "checked_mul" | "checked_add" | "checked_sub" => rt.map(|t| Ty::Opt(Box::new(t))),
                     "to_bits" => Some(U64),
-                    "len" => Some(Ty::Int(IntTy::Usize)),
+                    "len" | "capacity" | "count" => Some(Ty::Int(IntTy::Usize)),
+                    "is_empty" => Some(Ty::Bool),
+                    "pow" | "clone" => rt,
+                    "get" => Some(Ty::Opt(Box::new(U64))),
+                    "cmp" => Some(Ty::Ordering),
+                    "next" => match rt {
+                        Some(Ty::Seq(t)) => Some(Ty::Opt(t)),
+                        _ => None,
+                    },
+                    "unwrap" => match rt {
+                        Some(Ty::Opt(t)) => Some(*t),
+                        _ => None,
+                    },
+                    _ if matches!(rt, Some(Ty::Vec) | Some(Ty::Big)) => self.deleg_ret_ty(rt.as_ref()?, &name),
                     _ => {
                         let k = self.method_key(rt.as_ref()?, &name)?;
-                        self.g.fns.get(&k).map(|f| f.ret.clone())
+                        self.g.get_fn(&self.file, &k).map(|f| f.ret.clone())
                     }
                 }
             }
@@ -179,6 +202,11 @@ impl<'a> Cx<'a> {
                         "F::from_bits" | "F::from_u64" | "F::pow_fast_path" | "Self::from_bits"
                         | "Self::from_u64" | "Self::pow_fast_path" => return Some(Ty::Float),
                         "int_pow_fast_path" => return Some(U64),
+                        "VecType::new" => return Some(Ty::Vec),
+                        "VecType::try_from" => return Some(Ty::Opt(Box::new(Ty::Vec))),
+                        "Number::default" => return Some(Ty::Num),
+                        "VecType::from_u64" => return Some(Ty::Vec),
+                        "Bigint::new" | "Bigint::from_u64" => return Some(Ty::Big),
                         _ if s.ends_with("_value") && c.args.is_empty() && int_assoc_const(&s).is_some() => {
                             return int_assoc_const(&s).map(|x| Ty::Int(x.1))
                         }
@@ -187,13 +215,20 @@ impl<'a> Cx<'a> {
                         }
                         _ => {}
                     }
-                    return self.g.fns.get(&s).map(|f| f.ret.clone());
+                    return self.g.get_fn(&self.file, &s).map(|f| f.ret.clone());
                 }
                 None
             }
             E::Index(ix) => match self.ty_of(&ix.expr)? {
                 Ty::Table => Some(U64),
                 Ty::Table2 => Some(Ty::Tuple(vec![U64, U64])),
+                Ty::Vec | Ty::Slice | Ty::RView => {
+                    if matches!(&*ix.index, E::Range(_)) {
+                        Some(Ty::Slice)
+                    } else {
+                        Some(U64)
+                    }
+                }
                 _ => None,
             },
             E::Tuple(t) => {
@@ -205,6 +240,12 @@ impl<'a> Cx<'a> {
             }
             E::Struct(s) => match path_str(&s.path).as_str() {
                 "ExtendedFloat" => Some(Ty::Ext),
+                "Bigint" => Some(Ty::Big),
+                "ReverseView" => Some(Ty::RView),
+                "Self" => match self.self_kind.as_deref() {
+                    Some("Bigint") => Some(Ty::Big),
+                    _ => None,
+                },
                 _ => None,
             },
             E::If(i) => {
@@ -273,6 +314,7 @@ impl<'a> Cx<'a> {
                     Ok(Val::new(digits, Ty::Int(ty)))
                 }
                 syn::Lit::Bool(b) => Ok(Val::new(if b.value { "true" } else { "false" }, Ty::Bool)),
+                syn::Lit::Byte(b) => Ok(Val::new(b.value().to_string(), Ty::Int(IntTy::U8))),
                 _ => err(l.span(), "unsupported literal"),
             },
             E::Paren(p) => self.lower_expr(&p.expr, expected),
@@ -289,7 +331,11 @@ impl<'a> Cx<'a> {
             E::Unary(u) => self.lower_unary(u, expected),
             E::Binary(b) => self.lower_binary(b, expected),
             E::Assign(a) => {
-                let pt = self.place_read(&a.left)?.ty;
+                if let Some(x) = self.place_flex(&a.left) {
+                    let rt = self.ty_of(&a.right);
+                    self.fix_flex(&x, rt.as_ref());
+                }
+                let pt = self.place_ty(&a.left)?;
                 let v = self.lower_expr(&a.right, Some(&pt))?;
                 self.place_write(&a.left, &v)?;
                 Ok(Val::unit())
@@ -297,6 +343,11 @@ impl<'a> Cx<'a> {
             E::If(i) => self.lower_if(i, expected),
             E::Match(m) => self.lower_match(m, expected),
             E::While(w) => self.lower_while(w),
+            E::Loop(l) => self.lower_fuel_loop(l.span(), l.label.as_ref(), None, &l.body),
+            E::ForLoop(f) => self.lower_for(f),
+            E::Break(b) => self.lower_break(b),
+            E::Continue(_) => err(e.span(), "`continue` is unsupported"),
+            E::Macro(m) => self.lower_macro(&m.mac, expected),
             E::Block(b) => {
                 if b.label.is_some() {
                     return err(e.span(), "labelled blocks are unsupported");
@@ -310,22 +361,33 @@ impl<'a> Cx<'a> {
                     Some(x) => self.lower_expr(x, Some(&rt))?,
                     None => Val::unit(),
                 };
-                if v.ty != rt {
+                if !self.ret_compatible(&v, &rt) {
                     return err(e.span(), format!("`return` of {} in a function returning {}", v.ty, rt));
                 }
                 let t = self.ret_term(&v);
                 self.push(S::Ret(t));
-                let mut u = Val::unit();
-                u.never = true;
-                Ok(u)
+                Ok(Val::never())
             }
             E::Try(t) => {
                 let v = self.lower_expr(&t.expr, None)?;
+                let none = self.ret_term(&Val::new("None", self.ret_ty.clone()));
+                if v.ty == Ty::OptUpd {
+                    // rule 15: `Some` carries the updated `&mut` arguments, `None` is propagated
+                    if !matches!(self.ret_ty, Ty::Opt(_)) {
+                        return err(e.span(), "`?` is only supported in a function returning Option");
+                    }
+                    let pats: Vec<String> = v.upd.iter().map(|x| self.cn(x)).collect();
+                    let pat = if pats.len() == 1 { pats[0].clone() } else { format!("({})", pats.join(", ")) };
+                    self.push(S::MatchOpt { scrut: v.t, pat, none: vec![S::Ret(none)] });
+                    for x in &v.upd {
+                        self.mark_assigned(x);
+                    }
+                    return Ok(Val::unit());
+                }
                 let inner = match (&v.ty, &self.ret_ty) {
                     (Ty::Opt(x), Ty::Opt(_)) => (**x).clone(),
                     _ => return err(e.span(), "`?` is only supported on Option in a function returning Option"),
                 };
-                let none = self.ret_term(&Val::new("None", self.ret_ty.clone()));
                 let x = self.fresh();
                 self.push(S::MatchOpt { scrut: v.t, pat: x.clone(), none: vec![S::Ret(none)] });
                 Ok(Val::new(x, inner))
@@ -348,6 +410,7 @@ impl<'a> Cx<'a> {
                 Ok(Val::new(format!("({})", ts.join(", ")), Ty::Tuple(tys)))
             }
             E::Struct(s) => self.lower_struct(s),
+            E::Index(ix) if matches!(self.ty_of(&ix.expr), Some(Ty::Vec) | Some(Ty::Slice) | Some(Ty::RView)) => self.lower_index(ix),
             E::Index(ix) => {
                 let base = self.lower_expr(&ix.expr, None)?;
                 let i = self.lower_expr(&ix.index, Some(&Ty::Int(IntTy::Usize)))?;
@@ -376,7 +439,15 @@ impl<'a> Cx<'a> {
         if let Some(id) = p.path.get_ident() {
             let n = id.to_string();
             if let Some((_, v)) = self.lookup(&n) {
-                return Ok(Val::new(vname(&n), v.ty.clone()));
+                if v.alias.is_some() {
+                    return err(p.span(), "an alias of a vector element may only be used as `*alias`");
+                }
+                if v.flex {
+                    // first typed use of a literal-initialised variable (rule 2)
+                    self.fix_flex(&n, expected);
+                }
+                let v = self.lookup(&n).unwrap().1;
+                return Ok(Val::new(v.cname.clone(), v.ty.clone()));
             }
             if n == "self" && self.self_kind.as_deref() == Some("BellerophonPowers") {
                 self.needs.bt = true;
@@ -392,7 +463,7 @@ impl<'a> Cx<'a> {
                     _ => err(p.span(), "`None` of unknown type"),
                 };
             }
-            if let (Some(fi), Some(Ty::Fun(ps, r))) = (self.g.fns.get(&n).cloned(), expected) {
+            if let (Some(fi), Some(Ty::Fun(ps, r))) = (self.g.get_fn(&self.file, &n).cloned(), expected) {
                 // a function item used as a callback
                 if fi.params == *ps && fi.ret == **r {
                     self.needs.union(fi.needs);
@@ -417,6 +488,9 @@ impl<'a> Cx<'a> {
         match s.as_str() {
             "FastPathRadix::Ten" => Ok(Val::new("true", Ty::Radix)),
             "FastPathRadix::Five" => Ok(Val::new("false", Ty::Radix)),
+            "cmp::Ordering::Equal" | "Ordering::Equal" => Ok(Val::new("Eq", Ty::Ordering)),
+            "cmp::Ordering::Less" | "Ordering::Less" => Ok(Val::new("Lt", Ty::Ordering)),
+            "cmp::Ordering::Greater" | "Ordering::Greater" => Ok(Val::new("Gt", Ty::Ordering)),
             _ => err(p.span(), format!("unknown path `{}`", s)),
         }
     }
@@ -425,6 +499,12 @@ impl<'a> Cx<'a> {
         let b = self.lower_expr(&f.base, None)?;
         match &f.member {
             syn::Member::Named(id) => {
+                // single-field structs are their field (rule 14)
+                match (&b.ty, id.to_string().as_str()) {
+                    (Ty::Big, "data") => return Ok(Val::new(b.t, Ty::Vec)),
+                    (Ty::RView, "inner") => return Ok(Val::new(b.t, Ty::Slice)),
+                    _ => {}
+                }
                 let (acc, ty) = self.field_of(f.span(), &b.ty, &id.to_string())?;
                 Ok(Val::new(format!("({} {})", acc, b.t), ty))
             }
@@ -439,8 +519,36 @@ impl<'a> Cx<'a> {
     }
 
     fn lower_struct(&mut self, s: &syn::ExprStruct) -> R<Val> {
-        if s.rest.is_some() || path_str(&s.path) != "ExtendedFloat" {
-            return err(s.span(), "only `ExtendedFloat { mant, exp }` literals are supported");
+        let sname = match path_str(&s.path).as_str() {
+            "Self" => self.self_kind.clone().unwrap_or_default(),
+            n => n.to_string(),
+        };
+        if let Some((field, inner, outer)) = match sname.as_str() {
+            "Bigint" => Some(("data", Ty::Vec, Ty::Big)),
+            "ReverseView" => Some(("inner", Ty::Slice, Ty::RView)),
+            _ => None,
+        } {
+            // single-field structs are their field (rule 14; the declarations are checked)
+            if let Err(m) = &self.g.limb_ok {
+                return err(s.span(), m);
+            }
+            if s.rest.is_some() || s.fields.len() != 1 {
+                return err(s.span(), format!("`{}` literal must give exactly `{}`", sname, field));
+            }
+            let fv = &s.fields[0];
+            match &fv.member {
+                syn::Member::Named(id) if id == field => {}
+                _ => return err(fv.span(), format!("`{}` literal must give exactly `{}`", sname, field)),
+            }
+            let v = self.lower_expr(&fv.expr, Some(&inner))?;
+            let v = self.coerce(v, &inner);
+            if v.ty != inner {
+                return err(fv.span(), format!("field `{}` : {} initialised with {}", field, inner, v.ty));
+            }
+            return Ok(Val::new(v.t, outer));
+        }
+        if s.rest.is_some() || sname != "ExtendedFloat" {
+            return err(s.span(), "only `ExtendedFloat { mant, exp }` / single-field struct literals are supported");
         }
         let mut m: HashMap<String, String> = HashMap::new();
         for fv in &s.fields {
@@ -473,8 +581,17 @@ impl<'a> Cx<'a> {
             Ty::Int(t) => t,
             _ => return err(c.span(), "cast to a non-integer type"),
         };
-        // an unsuffixed literal operand gets the target type directly (`2 as u64` is not used;
-        // keep it simple and refuse)
+        // an unsuffixed literal operand gets the target type directly (as in rustc)
+        if let syn::Expr::Lit(syn::ExprLit { lit: syn::Lit::Int(i), .. }) = strip_ref(&c.expr) {
+            if i.suffix().is_empty() {
+                let v = i.base10_parse::<u128>().map_err(|e| e.to_string())?;
+                let fits = if tt.signed() { v < (1u128 << (tt.bits() - 1)) } else { tt.bits() == 128 || v < (1u128 << tt.bits()) };
+                if !fits {
+                    return err(c.span(), "literal out of range for the target type of the cast");
+                }
+                return Ok(Val::new(i.base10_digits().to_string(), Ty::Int(tt)));
+            }
+        }
         let v = self.lower_expr(&c.expr, None)?;
         match v.ty {
             Ty::Bool => Ok(Val::new(format!("(if {} then 1 else 0)", v.t), Ty::Int(tt))),
@@ -486,7 +603,12 @@ impl<'a> Cx<'a> {
 
     fn lower_unary(&mut self, u: &syn::ExprUnary, expected: Option<&Ty>) -> R<Val> {
         match u.op {
-            syn::UnOp::Deref(_) => self.lower_expr(&u.expr, expected),
+            syn::UnOp::Deref(_) => {
+                if let Ok(Place::Alias(a)) = self.place_of(&syn::Expr::Unary(u.clone())) {
+                    return self.alias_read(u.span(), &a);
+                }
+                self.lower_expr(&u.expr, expected)
+            }
             syn::UnOp::Not(_) => {
                 let v = self.lower_expr(&u.expr, expected)?;
                 match v.ty {
@@ -549,6 +671,12 @@ impl<'a> Cx<'a> {
     fn bitop(&mut self, sp: proc_macro2::Span, op: &str, ty: &Ty, a: &Val, b: &Val) -> R<Val> {
         match ty {
             Ty::Int(_) => Ok(Val::new(format!("(Z.{} {} {})", op, a.t, b.t), ty.clone())),
+            // `|` `&` `^` on bool: both operands are already evaluated
+            Ty::Bool => match op {
+                "lor" => Ok(Val::new(format!("({} || {})", a.t, b.t), Ty::Bool)),
+                "land" => Ok(Val::new(format!("({} && {})", a.t, b.t), Ty::Bool)),
+                _ => Ok(Val::new(format!("(xorb {} {})", a.t, b.t), Ty::Bool)),
+            },
             t => err(sp, format!("bit operation on {}", t)),
         }
     }
@@ -576,7 +704,7 @@ impl<'a> Cx<'a> {
                 ra.push(S::Let(res.clone(), r.t));
                 let short = vec![S::Let(res.clone(), if is_and { "false".into() } else { "true".into() })];
                 let (a, bb) = if is_and { (ra, short) } else { (short, ra) };
-                self.push(S::If { c: l.t, a, b: bb, outs: vec![res.clone()] });
+                self.push(S::If { c: l.t, m: None, a, b: bb, outs: vec![res.clone()] });
                 Ok(Val::new(res, Ty::Bool))
             }
             Lt(_) | Le(_) | Gt(_) | Ge(_) | Eq(_) | Ne(_) => {
@@ -629,7 +757,11 @@ impl<'a> Cx<'a> {
             AddAssign(_) | SubAssign(_) | MulAssign(_) | DivAssign(_) | RemAssign(_) | BitAndAssign(_)
             | BitOrAssign(_) | BitXorAssign(_) | ShlAssign(_) | ShrAssign(_) => {
                 // primitive compound assignment: right operand first, then the place is read
-                let pt = self.place_read(&b.left)?.ty;
+                if let Some(x) = self.place_flex(&b.left) {
+                    let rt = self.ty_of(&b.right);
+                    self.fix_flex(&x, rt.as_ref());
+                }
+                let pt = self.place_ty(&b.left)?;
                 let is_shift = matches!(b.op, ShlAssign(_) | ShrAssign(_));
                 let r = self.lower_expr(&b.right, if is_shift { None } else { Some(&pt) })?;
                 let l = self.place_read(&b.left)?;
@@ -658,7 +790,7 @@ impl<'a> Cx<'a> {
     // ------------------------------------------------------------------ calls
 
     /// call of a translated function / callback with parameter list `ps`
-    fn call_generic(
+    pub fn call_generic(
         &mut self,
         sp: proc_macro2::Span,
         head: String,
@@ -675,32 +807,37 @@ impl<'a> Cx<'a> {
         let mut muts: Vec<String> = vec![];
         for ((pty, pmut), a) in ps.iter().zip(args.iter()) {
             if *pmut {
-                // `&mut x`, or a variable that is itself a `&mut` (reborrow)
-                let x = match a {
-                    syn::Expr::Reference(r) if r.mutability.is_some() => match strip_ref(&r.expr) {
-                        syn::Expr::Path(p) if p.path.get_ident().is_some() => p.path.get_ident().unwrap().to_string(),
-                        _ => return err(a.span(), "`&mut` argument must be a variable"),
-                    },
-                    syn::Expr::Path(p) if p.path.get_ident().is_some() => {
-                        let n = p.path.get_ident().unwrap().to_string();
-                        match self.lookup(&n) {
-                            Some((_, v)) if v.mutref => n,
-                            _ => return err(a.span(), "argument for a `&mut` parameter must be `&mut x`"),
-                        }
-                    }
+                // `&mut x` (also `&mut x.data` of a Bigint), or a variable that is itself a
+                // `&mut` (reborrow)
+                let (place_expr, explicit) = match a {
+                    syn::Expr::Reference(r) if r.mutability.is_some() => (&*r.expr, true),
+                    other => (*other, false),
+                };
+                let x = match self.place_of(place_expr) {
+                    Ok(Place::Var(x)) => x,
+                    _ if explicit => return err(a.span(), "`&mut` argument must be a variable"),
                     _ => return err(a.span(), "argument for a `&mut` parameter must be `&mut x`"),
                 };
                 match self.lookup(&x) {
-                    Some((_, v)) if v.ty == *pty => {}
+                    Some((_, v)) if explicit || v.mutref => {
+                        if v.alias.is_some() {
+                            return err(a.span(), "`&mut` of an alias");
+                        }
+                    }
+                    _ => return err(a.span(), "argument for a `&mut` parameter must be `&mut x`"),
+                }
+                match self.ty_of(place_expr) {
+                    Some(t) if t == *pty => {}
                     _ => return err(a.span(), "type of the `&mut` argument"),
                 }
                 if muts.contains(&x) {
                     return err(a.span(), "the same variable is passed twice as `&mut`");
                 }
-                ts.push(vname(&x));
+                ts.push(self.cn(&x));
                 muts.push(x);
             } else {
                 let v = self.lower_expr(strip_ref(a), Some(pty))?;
+                let v = self.coerce(v, pty);
                 if v.ty != *pty {
                     return err(a.span(), format!("argument of type {} for a parameter of type {}", v.ty, pty));
                 }
@@ -711,7 +848,15 @@ impl<'a> Cx<'a> {
         if !monadic {
             return Ok(Val::new(format!("({})", app), ret.clone()));
         }
-        let mut pats: Vec<String> = muts.iter().map(|x| vname(x)).collect();
+        if *ret == Ty::Opt(Box::new(Ty::Unit)) && !muts.is_empty() {
+            // rule 15: the result is the option of the updated arguments
+            let r = self.fresh();
+            self.push(S::Bind(r.clone(), app));
+            let mut v = Val::new(r, Ty::OptUpd);
+            v.upd = muts;
+            return Ok(v);
+        }
+        let mut pats: Vec<String> = muts.iter().map(|x| self.cn(x)).collect();
         let res = if *ret != Ty::Unit || pats.is_empty() {
             let r = self.fresh();
             pats.push(r.clone());
@@ -737,7 +882,8 @@ impl<'a> Cx<'a> {
         // callback parameter
         if let Some((_, v)) = self.lookup(&s) {
             if let Ty::Fun(ps, r) = v.ty.clone() {
-                return self.call_generic(sp, vname(&s), &ps, &r, fun_is_monadic(&ps), vec![], &args);
+                let head = v.cname.clone();
+                return self.call_generic(sp, head, &ps, &r, fun_is_monadic(&ps), vec![], &args);
             }
             return err(sp, format!("`{}` is not callable", s));
         }
@@ -757,6 +903,9 @@ impl<'a> Cx<'a> {
                     return err(sp, "Some takes one argument");
                 }
                 let v = self.lower_expr(args[0], ex.as_ref())?;
+                if v.ty == Ty::OptUpd {
+                    return err(sp, "`Some` of the result of a function with `&mut` parameters (rule 15)");
+                }
                 return Ok(Val::new(format!("(Some {})", v.t), Ty::Opt(Box::new(v.ty))));
             }
             "F::from_u64" | "Self::from_u64" => {
@@ -768,7 +917,7 @@ impl<'a> Cx<'a> {
                 return self.call_generic(sp, "from_bits f b".into(), &[(U64, false)], &Ty::Float, true, vec![], &args);
             }
             "F::pow_fast_path" | "Self::pow_fast_path" => {
-                self.needs.union(Needs { c: true, t: true, bt: false, f: true });
+                self.needs.union(Needs { c: true, t: true, bt: false, l: false, f: true });
                 return self.call_generic(
                     sp,
                     "pow_fast_path c T f".into(),
@@ -780,7 +929,7 @@ impl<'a> Cx<'a> {
                 );
             }
             "int_pow_fast_path" => {
-                self.needs.union(Needs { c: true, t: true, bt: false, f: false });
+                self.needs.union(Needs { c: true, t: true, bt: false, l: false, f: false });
                 return self.call_generic(
                     sp,
                     "int_pow_fast_path c T b".into(),
@@ -793,9 +942,12 @@ impl<'a> Cx<'a> {
             }
             _ => {}
         }
-        let fi = match self.g.fns.get(&s) {
+        if let Some(v) = self.lower_call_ext(sp, &s, &args, expected)? {
+            return Ok(v);
+        }
+        let fi = match self.g.get_fn(&self.file, &s) {
             Some(f) => f.clone(),
-            None if self.g.omitted.contains(&s) => return err(sp, format!("calls `{}`, which was omitted", s)),
+            None if self.g.is_omitted(&self.file, &s) => return err(sp, format!("calls `{}`, which was omitted", s)),
             None => return err(sp, format!("call of `{}`, which is neither translated nor a known primitive", s)),
         };
         self.needs.union(fi.needs);
@@ -806,6 +958,9 @@ impl<'a> Cx<'a> {
         let sp = m.span();
         let name = m.method.to_string();
         let args: Vec<&syn::Expr> = m.args.iter().collect();
+        if let Some(v) = self.lower_method_ext(m, expected)? {
+            return Ok(v);
+        }
         let rty = self.ty_of(&m.receiver).or_else(|| {
             // integer methods on an unsuffixed literal / `as _`: use the argument or expectation
             args.first().and_then(|a| self.ty_of(a)).or(expected.cloned())
@@ -869,9 +1024,9 @@ impl<'a> Cx<'a> {
                     Some(k) => k,
                     None => return err(sp, format!("unsupported method `{}` on {}", name, rt)),
                 };
-                let fi = match self.g.fns.get(&key) {
+                let fi = match self.g.get_fn(&self.file, &key) {
                     Some(f) => f.clone(),
-                    None if self.g.omitted.contains(&key) => {
+                    None if self.g.is_omitted(&self.file, &key) => {
                         return err(sp, format!("calls `{}`, which was omitted", key))
                     }
                     None => return err(sp, format!("method `{}` is not translated", key)),
@@ -901,25 +1056,27 @@ impl<'a> Cx<'a> {
         let mut names = vec![];
         let mut result: R<()> = Ok(());
         for (p, (ty, mutref)) in c.inputs.iter().zip(ps.iter()) {
+            let p = match p {
+                syn::Pat::Type(pt) => &*pt.pat,
+                p => p,
+            };
             let id = match p {
-                syn::Pat::Ident(pi) => pi.ident.to_string(),
-                syn::Pat::Type(pt) => match &*pt.pat {
-                    syn::Pat::Ident(pi) => pi.ident.to_string(),
-                    _ => {
-                        result = err(sp, "closure parameter pattern");
-                        break;
-                    }
-                },
+                syn::Pat::Ident(pi) if pi.by_ref.is_none() && pi.subpat.is_none() => pi.ident.to_string(),
+                syn::Pat::Wild(_) => {
+                    names.push("_".to_string());
+                    continue;
+                }
                 _ => {
                     result = err(sp, "closure parameter pattern");
                     break;
                 }
             };
-            self.scopes.last_mut().unwrap().insert(id.clone(), Var { ty: ty.clone(), mutref: *mutref });
+            let cn = self.new_cname(&id, self.scopes.len() - 1);
+            self.scopes.last_mut().unwrap().insert(id.clone(), Var::plain(ty.clone(), *mutref, cn.clone()));
             if *mutref {
                 self.mut_params.push(id.clone());
             }
-            names.push(vname(&id));
+            names.push(cn);
         }
         let body = result.and_then(|_| self.lower_expr(&c.body, Some(r)));
         let out = body.and_then(|v| {
